@@ -1,15 +1,17 @@
 """C35 Record rules always reflect current field values (core/surecord.go)
 
-Mutation testing (scratch worktree, VERIF_REPO=<wt> bin/vcheck C35 quick; each mutant compiles
-and keeps `go test ./core/` green; all reported VIOLATION):
-  M1 surecord.go getIfPresent: addDependent only when the member is present (dependency not
-     recorded for a rule reading a missing member / through GetDefault->GetIfPresent)   -> caught
-  M2 surecord.go slice(): copy shares the invalid map with the original (invalid: r.invalid) -> caught
-  M3 surecord.go invalidate(): no recursive invalidateDependents (missed transitive
-     invalidation)                                                                      -> caught
-  M4 surecord.go callObservers: queued invalidations are dropped (only the changed member is
-     notified)                                                                          -> caught
-  M5 surecord.go put(): `same` early return happens before the invalid flag is cleared   -> caught
+Mutation testing (scratch worktree, VERIF_REPO=<wt> bin/vcheck C35 quick; every mutant listed as
+caught compiles, keeps `go test ./core/` green and made the quick tier print VIOLATION):
+  M1  surecord.go getIfPresent: addDependent only when the member is present (dependency not
+      recorded for a rule that reads a missing member, e.g. through GetDefault -> GetIfPresent) -> caught (line 14)
+  M2a surecord.go slice(): the copy gets no invalid set (invalid: nil)                         -> caught
+  M2b surecord.go slice(): the copy gets no dependents                                          -> caught
+  M3  surecord.go invalidate(): no recursive invalidateDependents (missed transitive
+      invalidation)                                                                             -> caught
+  M4  surecord.go callObservers: queued invalidations dropped (only the changed member notified) -> caught
+  M5  surecord.go put(): the same-value early return happens before the invalid flag is cleared -> caught
+  (M2  copy sharing the invalid map with the original is also caught, but the repository's own
+       TestSuRecord_Concurrency already fails on it - concurrent map write - so it is not counted)
 """
 import json, os, re
 
@@ -57,7 +59,7 @@ def run(ctx):
                        expect_violation="GetReflectsCurrent", count=False)
     # 2. generation: TLC simulation produces operation sequences (2 records, 2 observers)
     from vlib import Infra
-    nb = 600 if ctx.thorough() else 60
+    nb = 300 if ctx.thorough() else 30
     ctx.tlc_mc("MC_Record.tla", "Record_gen.cfg", timeout=600, simulate="num=%d" % nb,
                extra_args=["-depth", "41", "-seed", str(ctx.seed)], count=False, workers=1)
     bs = behaviours(ctx._last_out)[:nb]
